@@ -73,20 +73,21 @@ func (a *taskID) String() string {
 }
 
 type task struct {
-	id       taskID
-	ids      string // printable id, computed by the creator
-	name     string // spawn site
-	resume   chan struct{}
-	site     string // where it is parked
-	children int32
-	objects  int32
-	done     bool
-	waitMu   *sync.Mutex // non-nil: waiting for this mutex (engine park)
-	prio     int64       // PCT priority (root only)
-	recs     []Rec       // owner only
-	nrec     int
-	probes   []probeCount // owner only
-	settle   bool
+	id            taskID
+	ids           string // printable id, computed by the creator
+	name          string // spawn site
+	resume        chan struct{}
+	site          string // where it is parked
+	children      int32
+	objects       int32
+	done          bool
+	waitMu        *sync.Mutex // non-nil: waiting for this mutex (engine park)
+	prio          int64       // PCT priority (root only)
+	runnableSince int         // step at which it last became runnable (root only)
+	recs          []Rec       // owner only
+	nrec          int
+	probes        []probeCount // owner only
+	settle        bool
 }
 
 type probeCount struct {
